@@ -1658,6 +1658,33 @@ def rt_c12(tier="quick", first_only=False, count=None):
     want_w = np.where(np.asarray(mask), [0.5, 1.5, 2.5], -1.0)
     if not np.allclose(np.asarray(u["w"][0]), want_w) or not np.allclose(np.asarray(u["l"][0]), 2 * np.array([0.5, 1.5, 2.5]) + 1.0):
         add(f"nested wrappers unwrap to {np.asarray(u['w'][0]).tolist()} / {np.asarray(u['l'][0]).tolist()}")
+    # wrappers created under 0-2 levels of vmapped construction: unwrap of the batched wrapper == stack of the unwraps of the
+    # individually built wrappers (WeightNormalization under vmap cannot be built in this sandbox: baseline failure of the suite)
+    vrng = np.random.default_rng(8)
+    msk3 = jnp.array([True, False, True])
+    makers = {"BijectionReparam(SoftPlus)": (lambda a: BijectionReparam(jnp.abs(a) + 0.1, B.SoftPlus()), (3,)), "BijectionReparam(Exp)": (lambda a: BijectionReparam(jnp.abs(a) + 0.1, B.Exp()), (3,)),
+              "Lambda(cumsum, kwarg)": (lambda a: Lambda(lambda v, k=1.0: jnp.cumsum(v) * k, a, k=2.0), (3,)), "Lambda(matrix)": (lambda a: Lambda(lambda m_: jnp.tril(m_) + jnp.diag(jnp.exp(jnp.diag(m_))), a), (3, 3)),
+              "Where(fixed mask)": (lambda a: Where(msk3, a, 0.0), (3,)), "Where(mask from the argument)": (lambda a: Where(a > 0, a, -1.0), (3,)), "NonTrainable": (lambda a: NonTrainable(a), (3,)),
+              "BijectionReparam(Where(...))": (lambda a: BijectionReparam(Where(msk3, jnp.abs(a) + 0.1, 1.0), B.SoftPlus(), invert_on_init=False), (3,)),
+              "Lambda(BijectionReparam)": (lambda a: Lambda(lambda v: 2 * v, BijectionReparam(jnp.abs(a) + 0.1, B.SoftPlus())), (3,))}
+    for wname, (mkw, shp) in makers.items():
+        for batch in ((), (2,), (2, 3)):
+            n += 1
+            a_ = jnp.asarray(vrng.normal(size=batch + shp))
+            f_ = mkw
+            for _lvl in batch:
+                f_ = eqx.filter_vmap(f_)
+            try:
+                got = np.asarray(unwrap(f_(a_)))
+                one = [np.asarray(unwrap(mkw(a_[idx]))) for idx in np.ndindex(*batch)]
+                ref = np.stack(one).reshape(batch + one[0].shape)
+            except Exception as ex:  # noqa: BLE001
+                add(f"{wname} built under {len(batch)} level(s) of filter_vmap: unwrap raised {type(ex).__name__}: {str(ex).splitlines()[0][:120]}", wrapper=wname, levels=len(batch))
+                continue
+            if got.shape != ref.shape or not np.allclose(got, ref, rtol=1e-12, atol=1e-12):
+                add(f"{wname} built under {len(batch)} level(s) of filter_vmap unwraps to shape {got.shape} / values different from the stack of the individually built wrappers", wrapper=wname, levels=len(batch))
+        if first_only and fails:
+            return fails
     # a frozen SUBTREE (a whole sub-bijection / base distribution wrapped in NonTrainable, as the library's own test does): every
     # method gives the same result as on the un-frozen model, eagerly AND under jit, and both training loops run and leave the
     # frozen subtree bit-identical
